@@ -314,7 +314,9 @@ RunResult runDaemon(const Json::Value& sc, const DaemonHooks* hooks) {
 
 // --------------------------------------------------------------- campaign ---
 void Campaign::note(const Json::Value& c, const Verdict& v) {
-  evals++;
+  evals += v.weight;
+  for (size_t h : v.sub_nontrivial) nontrivial.insert(h);
+  if (!v.sample.isNull() && samples.size() < 3) samples.push_back(v.sample);
   if (v.discard) {
     discarded++;
     return;
